@@ -38,6 +38,32 @@ type recScript struct {
 	losses  []recLoss
 }
 
+// directed scripts: the combinations the property text names, so that the quick tier always plays them
+var directedRecScripts = []recScript{
+	// session rejected as unauthenticated, the fallback authentication fails too, the next attempt succeeds
+	{token: true, maxRec: 0, initial: time.Hour, losses: []recLoss{{kind: "drop", attempts: []recAttempt{
+		{dial: true, first: "unauth", second: "other", grant: time.Hour}, {dial: true, first: "ok", second: "ok", grant: time.Hour}}}}},
+	// expired session: full authentication fails once (silence), then succeeds; a second loss resumes the new session
+	{token: true, maxRec: 0, initial: 3 * time.Second, losses: []recLoss{{kind: "drop", attempts: []recAttempt{
+		{dial: true, first: "silent", second: "ok", grant: time.Hour}, {dial: true, first: "ok", second: "ok", grant: time.Hour}}},
+		{kind: "close-packet", attempts: []recAttempt{{dial: true, first: "ok", second: "ok", grant: time.Hour}}}}},
+	// MaxReconnect 2: attempts whose dial succeeds but whose resume fails count against the budget (error status, then silence)
+	{token: true, maxRec: 2, initial: time.Hour, losses: []recLoss{{kind: "drop", attempts: []recAttempt{
+		{dial: true, first: "other", second: "ok", grant: time.Hour}, {dial: true, first: "silent", second: "ok", grant: time.Hour},
+		{dial: true, first: "ok", second: "ok", grant: time.Hour}}}}},
+	// MaxReconnect 3: refused dial, dropped before the answer, then unauthenticated with a successful fallback
+	{token: true, maxRec: 3, initial: time.Hour, losses: []recLoss{{kind: "garbage", attempts: []recAttempt{
+		{dial: false, first: "silent", second: "ok", grant: time.Hour}, {dial: true, first: "drop", second: "ok", grant: time.Hour},
+		{dial: true, first: "unauth", second: "ok", grant: time.Hour}}}}},
+	// no token getter: two losses, a refused dial in between
+	{token: false, maxRec: 0, initial: time.Hour, losses: []recLoss{{kind: "drop", attempts: []recAttempt{{dial: true, first: "ok", second: "ok", grant: time.Hour}}},
+		{kind: "drop", attempts: []recAttempt{{dial: false, first: "silent", second: "ok", grant: time.Hour}, {dial: true, first: "ok", second: "ok", grant: time.Hour}}}}},
+	// unauthenticated twice in a row (fallback fails by a drop, then by an unauthenticated answer), then success
+	{token: true, maxRec: 0, initial: time.Hour, losses: []recLoss{{kind: "drop", attempts: []recAttempt{
+		{dial: true, first: "unauth", second: "drop", grant: time.Hour}, {dial: true, first: "unauth", second: "unauth", grant: time.Hour},
+		{dial: true, first: "ok", second: "ok", grant: time.Hour}}}}},
+}
+
 func genRecScript(rg *rng) recScript {
 	s := recScript{token: rg.intn(5) != 0, maxRec: rg.intn(4)}
 	grants := []time.Duration{time.Hour, time.Hour, 25 * time.Second, 3 * time.Second}
@@ -85,9 +111,12 @@ func modelReq(o string, exp int64) string {
 func init() {
 	for i := 0; i < 48; i++ {
 		i := i
-		register(&scenario{Name: fmt.Sprintf("c08/model-script-%02d", i), Props: []string{"C08", "C16"}, Quick: i < 8, TimeoutU: 1200, Run: func(t *T) {
+		register(&scenario{Name: fmt.Sprintf("c08/model-script-%02d", i), Props: []string{"C08", "C16", "C19"}, Quick: i < 12, TimeoutU: 1200, Run: func(t *T) {
 			rg := &rng{s: t.Seed*7919 + uint64(i)*104729 + 17}
 			sc := genRecScript(rg)
+			if i < len(directedRecScripts) {
+				sc = directedRecScripts[i]
+			}
 			p := newPeer(t, t.Transport, t.Version)
 			defer p.Shutdown()
 			var mu sync.Mutex
@@ -342,6 +371,19 @@ func init() {
 			}
 			line := fmt.Sprintf("reconnect.run max=%d token=%d session=%s count=0 losses=%s", sc.maxRec, tok, sessStr, strings.Join(lossLines, "|"))
 			t.ev("model.reconnect", "line", line, "observed", strings.Join(obsLines, " | "), "ambiguous", ambiguous)
+			// C19 at client level: every connection has its own context — the request ids seen on it are 1, 2, 3, … in issue order
+			for _, pc := range p.Conns() {
+				want := uint32(1)
+				for _, f := range pc.Frames() {
+					if f.Typ == 1 && (f.WsKind == "" || f.WsKind == "binary") {
+						if f.Rid != want {
+							t.Check("ids_from_one", false, "connection #%d: request ids do not count 1, 2, 3, … from the start of the connection: saw %d where %d was due", pc.N, f.Rid, want)
+							break
+						}
+						want++
+					}
+				}
+			}
 			after := atomic.LoadInt32(&t.afterRec)
 			succ := 0
 			for _, o := range obsLines {
